@@ -877,6 +877,7 @@ func TestVerifC06Random(t *testing.T) {
 	defer vkit.WriteStats()
 	defer verifTempCleanup()
 	verifRequire(t)
+	propC06.CrashFile = true
 	propC06.Check(t)
 }
 
